@@ -1,5 +1,6 @@
 import Driver.Proto
 import Model.LogHandlers
+import Model.TraceProto
 /-! Model driver of C13: a stateful line protocol over `TL` (tracelog) and `ML` (multilog). -/
 open Proto
 
@@ -235,8 +236,98 @@ def logX (s : St) : List String → St × String
     | _, _, _, _ => (s, "bad-op")
   | _ => (s, "bad-op")
 
+
+/-! ### the forced-schedule judge: `judge sched <depth> <nprod> <tok>* => rets=<r,...> writes=<hex|...>`
+
+The harness ran the scripted schedule against the real handler (see `go/cmd/c13/sched.go`) and reports what every
+`Handle` call returned and what the sink finally contained.  The protocol model (`TraceProto`, instantiated with the
+sequential formatter `TL.format`) computes the SET of final sink contents the script allows; the verdict is `ok` iff
+every call returned nil, every `Write` is exactly one formatted record, and the sequence is in that set. -/
+namespace Sched
+
+def padLen (p i : Nat) : Nat := (p * 31 + i * 7) % 97
+
+def natTok (n : Nat) : TL.Bytes := TL.ascii (toString n)
+
+def stamp : TL.Bytes := TL.ascii " | 2023-11-14 | 22:13:20.000 | "
+
+/-- producer `p` logs through the root (p % 3 = 0), `root.WithAttrs(pre=p)` (1) or `root.WithGroup("r")` (2) -/
+def entriesOf (p : Nat) : List TL.Entry :=
+  match p % 3 with
+  | 0 => []
+  | 1 => [.attrs [.leaf (TL.ascii "pre") (natTok p)]]
+  | _ => [.grp (TL.ascii "r")]
+
+def recordOf (p i : Nat) : TL.Record :=
+  { level := 0, ts := stamp, msg := TL.ascii ("p" ++ toString p ++ "-" ++ toString i),
+    attrs := [.leaf (TL.ascii "g") (natTok p), .leaf (TL.ascii "seq") (natTok i),
+              .leaf (TL.ascii "pad") ([34] ++ List.replicate (padLen p i) 120 ++ [34])] }
+
+def lineOf (p i : Nat) : TL.Bytes := TL.format [] (entriesOf p) (recordOf p i)
+
+def primerPid : Nat := 999
+
+def parseTok (w : String) : Option TraceProto.Tok :=
+  if w == "s" || w == "F" then some .sync
+  else if w.startsWith "h" then (w.drop 1).toString.toNat?.map .handle
+  else if w.startsWith "w" then (w.drop 1).toString.toNat?.map .permits
+  else if w.startsWith "c" then
+    match (w.drop 1).toString.splitOn "." with
+    | [a, b] => match a.toNat?, b.toNat? with
+      | some a, some b => some (.par a b)
+      | _, _ => none
+    | _ => none
+  else none
+
+/-- how many `Handle` calls the script makes for producer `p` -/
+def callsOf (script : List TraceProto.Tok) (p : Nat) : Nat :=
+  script.foldl (fun n t => match t with
+    | .handle q => if q == p then n + 1 else n
+    | .par a b => n + (if a == p then 1 else 0) + (if b == p then 1 else 0)
+    | _ => n) 0
+
+def showSeq (l : List (Nat × Nat)) : String :=
+  if l.isEmpty then "-" else ",".intercalate (l.map fun (p, i) => toString p ++ "." ++ toString i)
+
+def judge (ws : List String) (impl : String) : String :=
+  match ws with
+  | depth :: nprod :: toks =>
+    match depth.toNat?, nprod.toNat?, toks.mapM parseTok with
+    | some depth, some nprod, some script =>
+      let cfg : TraceProto.Config := { cap := depth, line := fun p i => some (lineOf p i) }
+      let x0 : TraceProto.XState :=
+        { s := { TraceProto.init nprod with cons := .writing ⟨primerPid, 0, []⟩ }, permits := 0 }
+      let allowed := TraceProto.dedup ((TraceProto.outcomes cfg x0 script).map fun o => o.filter (·.1 != primerPid))
+      -- the implementation's side
+      let parts := impl.splitOn " writes="
+      match parts with
+      | [rets, writes] =>
+        let rets := ((rets.drop 5).toString.splitOn ",").filter (· != "")
+        let total := (List.range nprod).foldl (fun n p => n + callsOf script p) 0
+        if rets.length != total || rets.any (· != "nil") then "NOT-ALLOWED a Handle call did not return nil: " ++ impl.take 200 |>.toString
+        else
+          let hexes := if writes == "-" then [] else writes.splitOn "|"
+          -- each Write must be exactly the formatted line of one record (no tear, no merge)
+          let table : List ((Nat × Nat) × String) := (List.range nprod).flatMap fun p =>
+            (List.range (callsOf script p)).map fun i => ((p, i), bytesHex (lineOf p i))
+          let ids := hexes.map fun h => (table.find? (·.2 == h)).map (·.1)
+          if ids.any (·.isNone) then "NOT-ALLOWED a Write is not exactly one formatted record"
+          else
+            let seq := ids.filterMap id
+            if allowed.contains seq then "ok allowed=" ++ toString allowed.length
+            else "NOT-ALLOWED sink=" ++ showSeq seq ++ " allowed=" ++ " / ".intercalate ((allowed.take 12).map showSeq)
+      | _ => "NOT-ALLOWED unreadable outcome: " ++ (impl.take 200).toString
+    | _, _, _ => "bad-op"
+  | _ => "bad-op"
+
+end Sched
+
 def step (s : St) (line : String) : St × String :=
   match words line with
+  | "judge" :: "sched" :: rest =>
+    match (" ".intercalate rest).splitOn " => " with
+    | [script, impl] => (s, Sched.judge (words script) impl)
+    | _ => (s, "bad-op")
   | "reset" :: _ => ({}, "reset")
   | "new" :: h :: sink :: lvl :: depth :: names =>
     match sink.toNat?, parseLevel lvl, depth.toInt?, parseNames names with
